@@ -28,25 +28,25 @@ Section Live.
   Notation it := (iterate (T:=R)).
   Notation eprox := (eval_prox lb ub l1).
   Notation epsih := (eval_psih psi_grad_full psi_yhat P).
-  Notation egradh := (eval_gradh grad_L).
-  Notation lsloop := (ls_loop psi_grad_full psi_yhat grad_L lb ub l1 never P).
-  Notation pass_ := (pass psi_grad_full psi_yhat grad_L lb ub l1 dir_apply has_initial never never P x_in y_in Σ errz_in ls_fuel).
-  Notation loop_ := (loop psi_grad_full psi_yhat grad_L lb ub l1 dir_apply has_initial never never P x_in y_in Σ errz_in ls_fuel).
+  Notation egradh := (eval_gradh grad_L grad_psi P).
+  Notation lsloop := (ls_loop psi_grad_full psi_yhat grad_L grad_psi lb ub l1 never P).
+  Notation pass_ := (pass psi_grad_full psi_yhat grad_L grad_psi lb ub l1 dir_apply has_initial never never P x_in y_in Σ errz_in ls_fuel).
+  Notation loop_ := (loop psi_grad_full psi_yhat grad_L grad_psi lb ub l1 dir_apply has_initial never never P x_in y_in Σ errz_in ls_fuel).
   Notation panoc_ := (panoc psi_grad_full psi_yhat grad_L grad_psi lb ub l1 dir_apply has_initial never never P x_in y_in Σ errz_in ls_fuel).
   Notation pgrad := (psi_grad psi_grad_full).
   Notation qubv := (it_qub_violated P).
   Notation eps_of := (it_eps lb ub l1 P).
-  Notation Consistent := (consistent psi_grad_full psi_yhat grad_L lb ub l1 P).
+  Notation Consistent := (consistent psi_grad_full psi_yhat grad_L grad_psi lb ub l1 P).
   Notation Glrel0 := (glrel0 psi_grad_full grad_psi P x_in).
   Notation Qub_ok := (qub_ok P).
   Notation Linit := (L_init psi_grad_full grad_psi P x_in).
   Notation Inv_ := (Inv psi_grad_full psi_yhat grad_L grad_psi lb ub l1 P x_in).
-  Notation check_it := (check_iterate grad_L P).
+  Notation check_it := (check_iterate grad_L grad_psi P).
 
   (* ---- the problem: ψ and ∇ψ as mathematical functions the oracles are coherent with *)
   Variables (ψ : list R -> R) (g : list R -> list R) (n : nat) (Lf ψinf : R).
   Hypothesis Hpsi : forall x, pgrad x = (ψ x, g x).
-  Hypothesis Hco : coherent psi_grad_full psi_yhat grad_L P.
+  Hypothesis Hco : coherent psi_grad_full psi_yhat grad_L grad_psi P.
   Hypothesis Hglen : forall x, length x = n -> length (g x) = n.
   (* global quadratic upper bound (descent lemma), written with the displacement d = v - u *)
   Hypothesis Hqub : forall u d, length u = n -> length d = n ->
@@ -115,7 +115,7 @@ Section Live.
     pose proof (proj_grad_step_length lb ub (igam i) (ix i) (g (ix i)) n Hlb Hub Hl (Hglen _ Hl)) as [L1 L2].
     rewrite X2 in L1, L2. cbn [fst snd] in L1, L2.
     constructor; try assumption.
-    - pose proof (Hco (ixh i)) as E. rewrite Hpsi, <- X5 in E. cbn [fst snd] in E. inversion E. reflexivity.
+    - destruct (Hco (ixh i)) as [E _]. rewrite Hpsi, <- X5 in E. cbn [fst snd] in E. inversion E. reflexivity.
     - rewrite X4, Eg. apply (PP vdot_comm).
     - pose proof (f_equal snd X2) as Hh. unfold proj_grad_step in Hh. cbn [snd] in Hh. now symmetry.
     - pose proof (PP proj_step_all_in_box (igam i) lb ub (ix i) (g (ix i)) ltac:(lia) ltac:(lia) ltac:(rewrite Hglen; lia) Hne) as Hb.
@@ -172,8 +172,8 @@ Section Live.
   Qed.
 
   (* ------------------------------------------------------------------ line search: L stays below max(L_init, 2 Lf) *)
-  Notation LsI_ := (LsI psi_grad_full psi_yhat grad_L lb ub l1 P).
-  Notation LsPost_ := (LsPost psi_grad_full psi_yhat grad_L lb ub l1 P).
+  Notation LsI_ := (LsI psi_grad_full psi_yhat grad_L grad_psi lb ub l1 P).
+  Notation LsPost_ := (LsPost psi_grad_full psi_yhat grad_L grad_psi lb ub l1 P).
 
   Lemma iL_halve_it (i : it) : iL (halve_it i) = 2 * iL i.
   Proof. unfold halve_it, halve_step, set_gamma_L. cbn [iL snd fst]. cbv [n2 nmul nadd n1 NumR]. lra. Qed.
@@ -208,10 +208,10 @@ Section Live.
     assert (Fcurr : facts (ls_curr s)).
     { apply consistent_facts; [apply HI|]. destruct Hcurr0 as [E _]. now rewrite E. }
     set (ph := if Req_bool τ (ls_tau_prev s) then (ls_curr s, ls_next s, inc_polls (ls_cnt s))
-               else if Req_bool τ 0 then take_safe_step grad_L (ls_curr s) (ls_next s) (inc_polls (ls_cnt s))
+               else if Req_bool τ 0 then take_safe_step grad_L grad_psi P (ls_curr s) (ls_next s) (inc_polls (ls_cnt s))
                else (ls_curr s, take_accel_step psi_grad_full τ q (ls_curr s) (ls_next s), inc_pg (inc_polls (ls_cnt s)))).
     assert (F : Consistent (fst (fst ph)) /\ core (fst (fst ph)) = core c0 /\ halved c0 (snd (fst ph)) /\
-                cons_x psi_grad_full psi_yhat grad_L P (snd (fst ph)) /\ (τ = 0 -> safe_of c0 (snd (fst ph))) /\
+                cons_x psi_grad_full psi_yhat grad_L grad_psi P (snd (fst ph)) /\ (τ = 0 -> safe_of c0 (snd (fst ph))) /\
                 iL (snd (fst ph)) <= Lbar /\ length (ix (snd (fst ph))) = n).
     { subst ph. destruct HI as [Hc Hco' Hgl HJ]. destruct (Req_bool_spec τ (ls_tau_prev s)) as [Et|Et].
       - cbn [fst snd]. destruct (HJ Et) as [Hx Hs]. split; [exact Hc|]. split; [exact Hco'|]. split; [exact Hgl|]. split; [exact Hx|]. split; [exact Hs|]. split; [exact HL2|exact (Hlen2 Et)].
@@ -249,7 +249,7 @@ Section Live.
       destruct (PP epsih_fields (eprox next)) as (E1 & E2 & E3 & E4 & E5 & E6 & E7 & _).
       unfold gl_of. rewrite E6, E7, E1, E5, E3. repeat split. }
     destruct N1 as (Nc & Ngl & Nx & Npsi & Ngr).
-    assert (Fx1 : cons_x psi_grad_full psi_yhat grad_L P next1) by apply Nc.
+    assert (Fx1 : cons_x psi_grad_full psi_yhat grad_L grad_psi P next1) by apply Nc.
     assert (Fs1 : τ = 0 -> safe_of c0 next1).
     { intros E. destruct (Fs E) as [A B]. unfold safe_of. now rewrite Nx, Npsi. }
     assert (Fgl1 : halved c0 next1).
